@@ -94,6 +94,10 @@ func (s *handler4LogSlog) Handle(ctx context.Context, rec logslog.Record) error 
 	lvl := convertLogSlogLevel(rec.Level)
 	if wi, ok := s.Logger.(LogSlogAware); ok {
 		fields := convertLogSlogRecordAttrs(rec)
+		if own := loggerAttrs(s.Logger); len(own) > 0 {
+			// attributes bound by WithAttrs/WithGroup come before the record's own
+			fields = append(append(Attrs(nil), own...), fields...)
+		}
 
 		// rec.PC would be abandoned because we want skip the extra frames
 		ei := 0
@@ -129,6 +133,17 @@ func (s *handler4LogSlog) WithGroup(name string) logslog.Handler {
 }
 
 // withFields returns a cloned Handler with the given fields.
+// loggerAttrs returns the attributes bound to the logger behind a handler.
+func loggerAttrs(l Logger) Attrs {
+	switch x := l.(type) {
+	case *logimp:
+		return x.Entry.attrs
+	case *Entry:
+		return x.attrs
+	}
+	return nil
+}
+
 func (s *handler4LogSlog) withFields(fields ...Attr) *handler4LogSlog {
 	// derive from the underlying logger, so that the derived handler keeps
 	// its level, format and destinations and adds the given attributes
@@ -143,6 +158,7 @@ func (s *handler4LogSlog) withFields(fields ...Attr) *handler4LogSlog {
 		return &handler4LogSlog{New().SetAttrs(fields...)}
 	}
 	child := parent.newChildLogger() // inherits level and format
+	child.name = parent.name         // records keep naming the original logger
 	child.writer = parent.writer    // same destinations
 	child.modeUTC, child.timeLayout = parent.modeUTC, parent.timeLayout
 	child.attrs = append(append(Attrs(nil), parent.attrs...), fields...)
